@@ -1,6 +1,9 @@
 package smt
 
-import "math/big"
+import (
+	"fmt"
+	"math/big"
+)
 
 // Eval evaluates a quantifier-free scalar term under a model (variable ID ->
 // constant). Variables without a value default to zero/false. Array terms are
@@ -163,4 +166,55 @@ func replicatedBit(e *Term) (*Term, int, bool) {
 		return e, 0, true
 	}
 	return nil, 0, false
+}
+
+// AbstractArith replaces every multiplication and unsigned division of two
+// non-constant operands by applications of the uninterpreted symbols umulN /
+// udivN (the same symbols on both sides of an equation: a sound abstraction;
+// ground axioms about them are added by package vc). Division keeps its
+// all-ones result on a zero divisor.
+func AbstractArith(t *Term) *Term {
+	memo := map[int]*Term{}
+	var walk func(t *Term) *Term
+	walk = func(t *Term) *Term {
+		if r, ok := memo[t.ID]; ok {
+			return r
+		}
+		var r *Term
+		if len(t.Args) == 0 {
+			r = t
+		} else {
+			na := make([]*Term, len(t.Args))
+			changed := false
+			for i, a := range t.Args {
+				na[i] = walk(a)
+				if na[i] != a {
+					changed = true
+				}
+			}
+			r = t
+			if changed {
+				r = Rebuild(t, na)
+			}
+			switch r.Op {
+			case "bvmul":
+				x, y := r.Args[0], r.Args[1]
+				if !x.IsConst() && !y.IsConst() {
+					if x.ID > y.ID {
+						x, y = y, x
+					}
+					r = AppC(fmt.Sprintf("umul%d", r.S.W), r.S, x, y)
+				}
+			case "bvudiv":
+				x, y := r.Args[0], r.Args[1]
+				if !y.IsConst() {
+					w := r.S.W
+					r = Ite(Eq(y, BVU(0, w)), BVNot(BVU(0, w)), App(fmt.Sprintf("udiv%d", w), r.S, x, y))
+				}
+			}
+		}
+		memo[t.ID] = r
+		return r
+	}
+	return walk(t)
 }
